@@ -18,7 +18,7 @@ ID = "C06"
 RULE = (
     "enumerated tier: every directed graph (self-loops included) on 1..3 nodes x per-node origin in {none, own "
     "non-ramp, own ramp, one ramp object shared by all such nodes} (palette A: ideal/metered; palette B: "
-    "mainstream/simplified, where all distinct elements share the name X; both palettes for <=2 nodes) x per-node destination in {none, own, one shared "
+    "mainstream/simplified, where all distinct elements share the name 'X%d' and node names contain '%s'; both palettes for <=2 nodes) x per-node destination in {none, own, one shared "
     "object} x {all links distinct, first two edges share one link object}; built through add_nodes/add_link/"
     "add_origin/add_destination; is_valid compared with the predicate after the links and at the end, and with "
     "raises=True. quick = all <=2-node cases + 20000 seeded-random 3-node cases; thorough = all of them. "
@@ -47,14 +47,14 @@ def enum_case(n, edge_list, ocodes, dcodes, share, palette):
     nonramp, ramp = PALETTES[palette]
     clash = palette == "B"  # distinct elements sharing one name: still not duplicates
     other = PALETTES["B" if palette == "A" else "A"]
-    uni = {"nodes": [f"N{i}" for i in range(n)], "links": [], "origins": [], "dests": []}
+    uni = {"nodes": [(f"N{i}%s" if clash else f"N{i}") for i in range(n)], "links": [], "origins": [], "dests": []}
     ops = [["add_nodes", [f"n{i}" for i in range(n)]]]
     for k, (u, v) in enumerate(edge_list):
         if share and k == 1:
             tok = "l0"
         else:
             tok = f"l{len(uni['links'])}"
-            uni["links"].append("X" if clash else f"L{len(uni['links'])}")
+            uni["links"].append("X%d" if clash else f"L{len(uni['links'])}")
         ops.append(["add_link", f"n{u}", tok, f"n{v}"])
     mid = len(ops)
     shared_o = None
@@ -69,7 +69,7 @@ def enum_case(n, edge_list, ocodes, dcodes, share, palette):
         else:
             kind = {1: nonramp, 2: ramp, 4: other[0], 5: other[1]}[c]
             tok = f"o{len(uni['origins'])}"
-            uni["origins"].append([kind, "X" if clash else f"O{i}"])
+            uni["origins"].append([kind, "X%d" if clash else f"O{i}"])
         ops.append(["add_origin", tok, f"n{i}"])
     shared_d = None
     for i, c in enumerate(dcodes):
@@ -82,7 +82,7 @@ def enum_case(n, edge_list, ocodes, dcodes, share, palette):
             tok = shared_d
         else:
             tok = f"d{len(uni['dests'])}"
-            uni["dests"].append(["cong" if i % 2 else "free", "X" if clash else f"D{i}"])
+            uni["dests"].append(["cong" if i % 2 else "free", "X%d" if clash else f"D{i}"])
         ops.append(["add_destination", tok, f"n{i}"])
     return {"universe": uni, "ops": ops, "checks": sorted({mid - 1, len(ops) - 1})}
 
@@ -169,7 +169,7 @@ def cases(draw):
         elif e == "drop_dest" and D:
             D.pop(draw(st.integers(0, len(D) - 1)))
     if draw(st.booleans()):
-        nm = lambda pre, i: draw(st.sampled_from(["a", "b"]))  # noqa: E731  clashing names
+        nm = lambda pre, i: draw(st.sampled_from(["a", "b%s", "50%"]))  # noqa: E731  clashing names, with characters special to formatting
     else:
         nm = lambda pre, i: f"{pre}{i}"  # noqa: E731
     uni = {"nodes": [nm("N", i) for i in range(nn)], "links": [nm("L", i) for i in range(nl)],
@@ -221,8 +221,8 @@ def check_valid(ctx, sim, where):
         ctx.fail("raises-on-valid", f"{where}: is_valid(raises=True) raised on a valid network: {raised}")
     if not exp_valid and raised is None:
         ctx.fail(f"no-raise:{conds}", f"{where}: is_valid(raises=True) returned {r2!r} although conditions {conds} are violated")
-    if exp_valid and raised is None and (r2[0] is not True or list(r2[1]) != []):
-        ctx.fail("raises-return", f"{where}: is_valid(raises=True) returned {r2!r}, expected (True, [])")
+    if exp_valid and raised is None and isinstance(r2, tuple) and r2 and not r2[0]:
+        ctx.fail("raises-return", f"{where}: is_valid(raises=True) returned the verdict {r2!r} for a valid network")
 
 
 def check_case(case, ctx):
